@@ -193,6 +193,9 @@ class FieldData:
 
   def _set_existing_field(self, fieldname, value, set_reference = False):
     renaming_connected = False
+    if fieldname == "record_type":
+      raise gfapy.RuntimeError(
+        "The record type of a line cannot be changed")
     if value is None and not set_reference and \
         fieldname in self.positional_fieldnames:
       raise gfapy.ValueError(
